@@ -179,20 +179,18 @@ func (w *World) observe(tx *wire.MsgTx, phase string) (*simReq, *txInfo) {
 	}
 
 	// --- fee rate <= configured maximum ---------------------------------------
-	// fee <= MaxFeeRate * (actual weight + signature slack) / 1000. When the
-	// transaction has no change output, the sub-dust remainder necessarily went
-	// to the miners; that remainder (strictly below the change script's dust
-	// limit) is tolerated on top (the budget bound above stays exact).
+	// fee <= MaxFeeRate * (actual weight + documented witness slack) / 1000.
+	// No further allowance: when a transaction ends up without change output
+	// (its sub-dust remainder went to the miners) the bound is the same; such
+	// cases carry their own structural signature.
 	maxFee := w.cfg.maxRateKW() * info.wNorm / 1000
-	tol := int64(0)
-	if !info.hasChange {
-		tol = dustLimit(w.changePk) - 1
-	}
-	if info.fee > maxFee+tol {
-		w.violate(q, "rate-above-max", "%s at height %d: fee %d sat on weight %d(+%d slack) exceeds MaxFeeRate %d sat/kw (max fee %d, dust tolerance %d)",
-			phase, w.height, info.fee, info.wAct, info.wNorm-info.wAct, w.cfg.maxRateKW(), maxFee, tol)
-	} else if info.fee > maxFee {
-		w.r.Count("probe_dust_remainder_above_maxrate")
+	if info.fee > maxFee {
+		sig := ""
+		if !info.hasChange {
+			sig = "no-change-output"
+		}
+		w.violateSig(q, "rate-above-max", sig, "%s at height %d: fee %d sat on weight %d(+%d slack) is %d sat/kw, above MaxFeeRate %d sat/kw (which allows %d sat); outputs=%d change-output=%v budget=%d",
+			phase, w.height, info.fee, info.wAct, info.wNorm-info.wAct, info.fee*1000/info.wNorm, w.cfg.maxRateKW(), maxFee, len(tx.TxOut), info.hasChange, budget)
 	}
 
 	// --- no output below dust; required outputs in place ---------------------
@@ -231,15 +229,20 @@ func (w *World) observe(tx *wire.MsgTx, phase string) (*simReq, *txInfo) {
 	if phase == "publish" {
 		floorFee := w.cfg.RelayFloor * info.wAct / 1000
 		if info.fee < floorFee {
-			// Structural signature: is the request's ceiling itself below
-			// the floor (then it had to fail instead), or not (then the ramp
-			// started too low)?
-			sig := "ceiling-at-or-above-floor"
-			if budget*1000/info.wAct < w.cfg.RelayFloor || w.cfg.maxRateKW() < w.cfg.RelayFloor {
-				sig = "ceiling-below-floor"
+			// Structural signature: could the node have known? With a
+			// backend that implements testmempoolaccept the simulated
+			// policy rejects such a transaction before it is published, so
+			// a publish there means the node skipped or ignored the check.
+			sig := "with-testmempoolaccept"
+			if w.cfg.Backend != backendFullNode {
+				sig = "no-testmempoolaccept"
 			}
-			w.violateSig(q, "below-relay-floor", sig, "handed to PublishTransaction at height %d with fee %d sat on weight %d: below the relay floor %d sat/kw (needs %d sat); budget %d sat, MaxFeeRate %d sat/kw, backend %s [%s]",
-				w.height, info.fee, info.wAct, w.cfg.RelayFloor, floorFee, budget, w.cfg.maxRateKW(), wallet{w}.BackEnd(), sig)
+			why := "ceiling at or above the floor (ramp started too low)"
+			if budget*1000/info.wAct < w.cfg.RelayFloor {
+				why = "ceiling budget/size itself below the floor (request had to fail)"
+			}
+			w.violateSig(q, "below-relay-floor", sig, "handed to PublishTransaction at height %d with fee %d sat on weight %d: below the relay floor %d sat/kw (needs %d sat); budget %d sat, request StartingFeeRate %d sat/kw, backend %s; %s",
+				w.height, info.fee, info.wAct, w.cfg.RelayFloor, floorFee, budget, q.startRate, wallet{w}.BackEnd(), why)
 		}
 	} else if info.fee < w.cfg.RelayFloor*info.wAct/1000 {
 		w.r.Count("probe_attempt_below_floor")
@@ -333,6 +336,9 @@ func (w *World) registerRequest(req *sweep.BumpRequest) *simReq {
 func (w *World) onResult(q *simReq, res *sweep.BumpResult) {
 	w.ev(q, "result %v feerate=%d fee=%d err=%v", res.Event, int64(res.FeeRate), int64(res.Fee), errStr(res.Err))
 	w.r.Count("result_" + res.Event.String())
+	if res.Err != nil && (res.Event == sweep.TxFailed || res.Event == sweep.TxFatal) {
+		w.r.Count("why_" + res.Event.String() + "_" + errClass(res.Err))
+	}
 	switch res.Event {
 	case sweep.TxPublished, sweep.TxReplaced:
 		rate := int64(res.FeeRate)
@@ -407,4 +413,31 @@ func (w *World) checkDeadlines() {
 				w.height, q.deadline, a.fee, a.height, q.budgetSum, w.cfg.maxRateKW(), a.wAct, lb)
 		}
 	}
+}
+
+// errClass maps a bump failure to a short stable label (statistics only).
+func errClass(err error) string {
+	switch {
+	case errors.Is(err, sweep.ErrNotEnoughBudget):
+		return "not_enough_budget"
+	case errors.Is(err, sweep.ErrNotEnoughInputs):
+		return "not_enough_inputs"
+	case errors.Is(err, sweep.ErrTxNoOutput):
+		return "no_output"
+	case errors.Is(err, sweep.ErrZeroFeeRateDelta):
+		return "zero_delta"
+	case errors.Is(err, sweep.ErrMaxPosition):
+		return "max_position"
+	case errors.Is(err, sweep.ErrInputMissing):
+		return "input_missing"
+	case errors.Is(err, sweep.ErrLocktimeImmature):
+		return "locktime_immature"
+	case errors.Is(err, sweep.ErrFeePreferenceTooLow):
+		return "estimate_below_floor"
+	case errors.Is(err, errEstimator):
+		return "estimator_error"
+	case errors.Is(err, errGenericMempool), errors.Is(err, errGenericPublish):
+		return "wallet_generic"
+	}
+	return "other"
 }
